@@ -171,7 +171,9 @@ func c06Request(shape, tag string, pad int) (raw string, expect map[string]strin
 		} else {
 			expect["ip"] = "198.51.100.7"
 		}
-		hdrs += "X-Forwarded-Proto: " + sch + more[0] + "\r\nX-Forwarded-Host: " + fsub + ".fwd.example.net" + more[1] + "\r\nX-Forwarded-For: 198.51.100.7" + more[2] + "\r\n"
+		// in front of the other headers: fasthttp moves the Cookie header's slot to the end when cookies are first read, which shifts
+		// every later header into a slot of another size (the next request then reallocates instead of overwriting in place)
+		hdrs = "X-Forwarded-Proto: " + sch + more[0] + "\r\nX-Forwarded-Host: " + fsub + ".fwd.example.net" + more[1] + "\r\nX-Forwarded-For: 198.51.100.7" + more[2] + "\r\n" + hdrs
 		expect["scheme"], expect["host"], expect["hostname"], expect["baseurl"], expect["subdomains"], expect["ips"] =
 			sch, fsub+".fwd.example.net", fsub+".fwd.example.net", sch+"://"+fsub+".fwd.example.net", fsub, "198.51.100.7"
 	}
